@@ -80,8 +80,10 @@ func genCase(t *rapid.T) Case {
 		c.AddRoot = rapid.Bool().Draw(t, "addroot")
 		c.DotPrefix = rapid.Bool().Draw(t, "dotprefix")
 	}
-	cli := hx.Thorough() && os.Getenv("VERIF_DESYNC_BIN") != ""
-	if cli && rapid.IntRange(0, 5).Draw(t, "cli") == 0 {
+	// the binary has its own option and flag handling (digest, index header): both tiers drive it, with the
+	// same digest on the two commands of a round trip
+	cli := os.Getenv("VERIF_DESYNC_BIN") != ""
+	if cli && rapid.IntRange(0, hx.Pick(7, 5)).Draw(t, "cli") == 0 {
 		c.CLI = true
 	}
 	c.Sizes = gen.Sizes{Min: 48, Avg: 64, Max: 256}
@@ -275,6 +277,7 @@ func unpackCatar(catar []byte, w *writer, src *fstree.Node) (*result, *pipeErr) 
 type indexNotes struct {
 	chunks  int
 	flagBad bool
+	ran     []string // commands of the binary that were executed: tar tar-i untar untar-i mtree mtree-i
 	msgs    []string // index-level violations: "sig-suffix\x00message"
 }
 
@@ -418,6 +421,8 @@ func variantCLI(c Case, dir, src string, tarStream []byte, refCatar []byte, srcT
 		targs = append(targs, "-i", "-s", store, "-m", fmt.Sprintf("%d:%d:%d", kb(c.Sizes.Min), kb(c.Sizes.Avg), kb(c.Sizes.Max)))
 	}
 	targs = append(targs, arch, from)
+	suffix := map[bool]string{false: "", true: "-i"}[c.Via == "index"]
+	notes.ran = append(notes.ran, "tar"+suffix)
 	if err := runBin(dir, nil, targs...); err != nil {
 		return nil, &pipeErr{"pack", "", err}
 	}
@@ -439,9 +444,28 @@ func variantCLI(c Case, dir, src string, tarStream []byte, refCatar []byte, srcT
 			notes.msgs = append(notes.msgs, fmt.Sprintf("unreadable\x00index file written by the binary is not a well-formed caidx: %v", perr))
 		} else {
 			notes.chunks = len(f.Items)
+			// the header says which digest the table holds: SHA512-256 flag iff that is the digest in use
 			if flagSet := f.Flags&ref.FlagSHA512256 != 0; flagSet == (c.Digest == "sha256") {
 				notes.flagBad = true
 				notes.msgs = append(notes.msgs, fmt.Sprintf("flag\x00index file written by `desync --digest %s tar -i` has feature flags %#x (SHA512-256 flag set: %v)", c.Digest, f.Flags, flagSet))
+			}
+			// the table tiles the archive of this input, and every ID is the configured digest of its range
+			var pos uint64
+			for i, it := range f.Items {
+				if it.End <= pos || it.End > uint64(len(refCatar)) {
+					notes.msgs = append(notes.msgs, fmt.Sprintf("tiling\x00index file written by the binary: chunk %d of %d ends at %d after %d (archive of %d bytes)", i, len(f.Items), it.End, pos, len(refCatar)))
+					pos = uint64(len(refCatar))
+					break
+				}
+				if id := ref.ID(refCatar[pos:it.End], c.Digest == "sha256"); id != it.ID {
+					notes.msgs = append(notes.msgs, fmt.Sprintf("chunk-id\x00index file written by `desync --digest %s tar -i`: ID %x of chunk %d [%d,%d) is not the %s digest of that archive range (%x)", c.Digest, it.ID[:6], i, pos, it.End, c.Digest, id[:6]))
+					pos = uint64(len(refCatar))
+					break
+				}
+				pos = it.End
+			}
+			if pos != uint64(len(refCatar)) {
+				notes.msgs = append(notes.msgs, fmt.Sprintf("tiling\x00index file written by the binary covers %d of %d archive bytes", pos, len(refCatar)))
 			}
 		}
 	}
@@ -472,6 +496,7 @@ func variantCLI(c Case, dir, src string, tarStream []byte, refCatar []byte, srcT
 		}
 		uargs = append(uargs, arch, dest)
 	}
+	notes.ran = append(notes.ran, map[bool]string{false: "untar", true: "mtree"}[c.Output == "mtree"]+suffix)
 	if err := runBin(dir, stdout, uargs...); err != nil {
 		class := classifyUnpackErr(err, c.Output, srcTree)
 		if notes.flagBad && strings.Contains(err.Error(), "index file uses") {
@@ -812,6 +837,9 @@ func run(c Case) (o hx.Outcome) {
 			o.Class("index:chunks>=2")
 		}
 	}
+	for _, cmd := range notes.ran {
+		o.Class("cli:digest:" + c.Digest + ":" + cmd)
+	}
 	for _, m := range notes.msgs {
 		i := strings.IndexByte(m, 0)
 		ipipe := "index"
@@ -862,11 +890,12 @@ var spec = &hx.Spec[Case]{
 	Level: "exploration",
 	Rule: "cases = (generated tree on disk: depth <= 4, 0..12 entries per directory (thorough: seeded fan-out to 3000), names of 1..255 arbitrary bytes, files 0..70000 bytes (thorough 300000) incl. sizes around the chunk sizes, " +
 		"symlinks to arbitrary targets, char/block devices, uid/gid in [0,2^32-2], mode in [0,07777], mtime anywhere in the ext4 range (the exact epoch on about 1 node in 25, and as a non-empty epoch directory followed by a sibling in 1 tree in 8), user.* xattrs on files and directories, trusted.* on symlinks and devices) " +
-		"x input {disk, tar stream pax/gnu with root entry or AddRoot} x {catar, ChunkStream+store+UnTarIndex with generated chunk sizes} x output {LocalFS, gnu-tar, mtree} x digest {sha512-256, sha256}; thorough adds the binary; " +
+		"x input {disk, tar stream pax/gnu with root entry or AddRoot} x {catar, ChunkStream+store+UnTarIndex with generated chunk sizes} x output {LocalFS, gnu-tar, mtree} x digest {sha512-256, sha256}; one case in 8 (thorough: 6) runs the variant through the desync binary; " +
 		"non-trivial = tree has a directory with >= 2 children and at least one symlink, device, xattr, set-id/sticky bit or non-root owner; distinct by (pipeline, output, digest, tree shape)",
 	Assumptions: []string{
 		"oracle: plain-syscall snapshot (lstat, readlink, llistxattr/lgetxattr, rdev, content) of the destination equals the snapshot of the source on path set, type, mode & 07777, uid, gid, symlink target, xattrs, device numbers, content, mtime (ns); atime/ctime are not compared",
 		"the source snapshot, not the generated description, is the reference (the kernel clamps time stamps to the ext4 range)",
+		"the desync binary ($VERIF_DESYNC_BIN, one case in 8 quick / 6 thorough plus a grid in TestEnum): `[--digest sha256] tar [--input-format tar [--tar-add-root]] [-i -s store -m k:k:k]` then `untar [-i -s store] [--output-format gnu-tar]` or `mtree [-i -s store]` with the same digest; a catar written by the binary must equal desync.Tar's, a caidx is parsed with the independent parser (internal/ref): SHA512-256 flag iff default digest, table tiles the archive, every ID is the configured digest (crypto/sha256, crypto/sha512 directly) of its range",
 		"LocalFS is used with zero LocalFSOptions (owner, xattrs and permissions of the archive are applied); the harness runs as root",
 		"about one node in 25 has an mtime of exactly the epoch (desync documents 0 as 'no time'): the mtime of such a node itself is not compared (class mtime:epoch-node-skipped), every other field of it and the mtime of every other node, its ancestors included, is; a gnu tar input whose floor(mtime) is the epoch although the source's is not is written with mtime 1 s",
 		"gnu-tar output: compared on path, type, mode & 07777, uid, gid, size and content, floor(mtime) in seconds, link target, device numbers (xattrs are not carried by the format)",
@@ -877,7 +906,10 @@ var spec = &hx.Spec[Case]{
 	},
 	Required: []string{"empty-directory", "empty-file", "file>max-chunk", "name:byte>=0x80", "sha256", "pipeline:catar", "pipeline:index", "pipeline:tarin-catar", "pipeline:tarin-addroot-catar",
 		"output:localfs", "output:gnutar", "output:mtree", "kind:symlink", "kind:chr", "kind:blk", "xattrs", "setid-or-sticky", "non-root-owner", "index:chunks>=2", "store:local", "store:mem",
-		"mtime:epoch-node-skipped", "mtime:epoch:dir", "mtime:epoch:file", "mtime:epoch:symlink", "mtime:epoch:chr", "mtime:epoch:blk", "shape:epoch-dir-then-sibling"},
+		"mtime:epoch-node-skipped", "mtime:epoch:dir", "mtime:epoch:file", "mtime:epoch:symlink", "mtime:epoch:chr", "mtime:epoch:blk", "shape:epoch-dir-then-sibling",
+		// the binary, both digests on both commands of the round trip (the driver builds it: need_bin)
+		"cli:digest:sha256:tar", "cli:digest:sha256:tar-i", "cli:digest:sha256:untar", "cli:digest:sha256:untar-i",
+		"cli:digest:sha512-256:tar", "cli:digest:sha512-256:tar-i", "cli:digest:sha512-256:untar", "cli:digest:sha512-256:untar-i"},
 	Gen: genCase,
 	Run: run,
 	// a case that never returns is a verdict (confirmed by a replay in a fresh process), not a timeout of the run
@@ -1020,6 +1052,36 @@ func TestEnum(t *testing.T) {
 				}
 			}
 		}
+	}
+	// the binary: both digests x {tar, tar -i} x every input x every output, on one small tree with two chunks
+	if os.Getenv("VERIF_DESYNC_BIN") != "" {
+		k := 0
+		small := fstree.Spec{Perm: 0o755, Sec: 1_300_000_000, Kids: []fstree.Spec{
+			node("d", fstree.Dir, 1_300_000_001, node("f", fstree.File, 1_300_000_002)),
+			{Name: []byte("big"), Kind: fstree.File, Perm: 0o4750, UID: 1000, GID: 100, Sec: 1_300_000_003, Size: 3000, Seed: 7},
+			node("l", fstree.Symlink, 1_300_000_004), node("c", fstree.Chr, 1_300_000_005)}}
+		for _, dg := range []string{"sha512-256", "sha256"} {
+			for _, via := range []string{"catar", "index"} {
+				for _, in := range []pl{{"disk", "", false, false}, {"tar", "", false, false}, {"tar", "", true, true}} {
+					for _, out := range []string{"localfs", "gnutar", "mtree"} {
+						if in.input == "tar" && out != "localfs" {
+							continue // a tar input is followed to the unpacked tree only
+						}
+						if idx++; idx%hx.Shards() != hx.Shard() {
+							continue
+						}
+						c := Case{Digest: dg, Input: in.input, TarFormat: "pax", AddRoot: in.addRoot, Via: via, Output: out, CLI: true, DestFresh: in.nw,
+							Sizes: gen.Sizes{Min: 1 << 10, Avg: 2 << 10, Max: 4 << 10}, Store: "local", N: 2, Root: small}
+						if !hx.Case(t, spec, c) {
+							return
+						}
+						k++
+					}
+				}
+			}
+		}
+		hx.AddNote("enumerated_cli_cases", k)
+		hx.Exhaustive("desync binary: {sha512-256, sha256} x {tar, tar -i} x {disk->localfs/gnu-tar/mtree, tar stream->localfs, tar stream with --tar-add-root->localfs} (split over the shards)")
 	}
 	hx.AddNote("enumerated_epoch_shape_cases", m)
 	hx.Exhaustive("non-empty epoch-mtime directory followed by a sibling: depth 0..2 x 5 kinds inside x 5 kinds after x {direct, nested} x 6 disk-output pipelines (split over the shards)")
